@@ -127,6 +127,23 @@ def imod(a, b):
     return a % b
 
 
+def _toreal(x):
+    """python number / z3 int or real term -> z3 real term (true division is a real operation)"""
+    x = Z(x)
+    if isz(x):
+        return z3.ToReal(x) if z3.is_int(x) else x
+    from fractions import Fraction
+
+    fr = Fraction(int(x) if isinstance(x, bool) else x)
+    return z3.RealVal(f"{fr.numerator}/{fr.denominator}")
+
+
+def tdiv(a, b):
+    """true division a / b of reals (numpy `/`); z3's total division: the value at b == 0 is unconstrained,
+    so an obligation about a quotient can only be discharged where it does not depend on it"""
+    return _toreal(a) / _toreal(b)
+
+
 def _force(x):
     return x() if callable(x) and not isz(x) else x
 
@@ -744,8 +761,14 @@ class IArr:
 
     __hash__ = object.__hash__
 
-    def _inplace(s, o, op):
-        r = s._bin(o, op)
+    def __truediv__(s, o):
+        return s._bin(o, tdiv, "real")
+
+    def __rtruediv__(s, o):
+        return s._bin(o, lambda a, b: tdiv(b, a), "real")
+
+    def _inplace(s, o, op, kind=None):
+        r = s._bin(o, op, kind)
         if r is NotImplemented:
             return r
         if len(r._shape) != len(s._shape) or not all(same_size(a, b) for a, b in zip(r._shape, s._shape)):
@@ -763,6 +786,9 @@ class IArr:
 
     def __imul__(s, o):
         return s._inplace(o, lambda a, b: _real(a) * _real(b))
+
+    def __itruediv__(s, o):
+        return s._inplace(o, tdiv, "real")
 
     # ---- numpy protocols: real ufuncs / functions called on an IArr are routed to the stand-ins
     def __array_ufunc__(s, ufunc, method, *inputs, **kw):
@@ -811,6 +837,8 @@ _UFUNC2 = {
     "subtract": (lambda a, b: _real(a) - _real(b), None),
     "multiply": (lambda a, b: _real(a) * _real(b), None),
     "floor_divide": (idiv, None),
+    "divide": (tdiv, "real"),
+    "true_divide": (tdiv, "real"),
     "remainder": (imod, None),
     "equal": (eq, "bool"),
     "not_equal": (lambda a, b: Not(eq(a, b)), "bool"),
@@ -2059,6 +2087,11 @@ def selftest(seed=0):
             cmp("split", got, want)
         cmp("arith", 3 * a + _arange(sh[-1]), 3 * A + _np.arange(sh[-1]))
         cmp("floordiv-mod", (a // 2) + (a % 2), (A // 2) + (A % 2))
+        P2 = 2.0 ** (A % 4)  # divisors that keep every quotient exactly representable (floats denote rationals)
+        cmp("truediv", (a / 4) + (3 / _lift(P2)), (A / 4) + (3 / P2))
+        q = _lift(A * 0.5).copy()
+        q /= _lift(P2)
+        cmp("itruediv", q, (A * 0.5) / P2)
         cmp("compare", a < 4, A < 4)
         cmp("broadcast_to", _broadcast_to(a, (2,) + sh), _np.broadcast_to(A, (2,) + sh))
         I = rs.randint(0, sh[0], size=5)
